@@ -1,12 +1,14 @@
 package props
 
 import (
+	"bufio"
 	"bytes"
 	"compress/gzip"
 	"compress/zlib"
 	"errors"
 	"fmt"
 	"io"
+	"net"
 	"net/http"
 	"net/http/httptest"
 	"runtime"
@@ -55,6 +57,25 @@ type C13Op struct {
 
 var c13Providers = []string{"pool", "bounded0", "bounded1", "bounded4", "bounded1-3", "custom"}
 
+// hijackableRecorder is a recorder whose connection can be taken over (http.Hijacker), as a
+// real server's can; the connection handed out is a dummy.
+type hijackableRecorder struct {
+	*httptest.ResponseRecorder
+	hijacked int
+}
+
+type dummyConn struct{ net.Conn }
+
+func (dummyConn) Close() error                { return nil }
+func (dummyConn) Write(p []byte) (int, error) { return len(p), nil }
+func (dummyConn) Read(p []byte) (int, error)  { return 0, io.EOF }
+
+func (h *hijackableRecorder) Hijack() (net.Conn, *bufio.ReadWriter, error) {
+	h.hijacked++
+	c := dummyConn{}
+	return c, bufio.NewReadWriter(bufio.NewReader(c), bufio.NewWriter(c)), nil
+}
+
 // customProvider is a trivial third-party provider: always new objects, releases are dropped.
 type customProvider struct{}
 
@@ -82,7 +103,7 @@ func genC13Seq(t *rapid.T) C13SeqCase {
 	c := C13SeqCase{Provider: rapid.SampledFrom(c13Providers).Draw(t, "provider")}
 	n := rapid.IntRange(1, 25).Draw(t, "nops")
 	for i := 0; i < n; i++ {
-		op := C13Op{Op: rapid.SampledFrom([]string{"resp_ok", "resp_ok", "resp_fail", "resp_panic", "read_ok", "read_trunc", "read_corrupt", "explicit", "swap", "mux_own"}).Draw(t, "op")}
+		op := C13Op{Op: rapid.SampledFrom([]string{"resp_ok", "resp_ok", "resp_fail", "resp_panic", "read_ok", "read_trunc", "read_corrupt", "explicit", "swap", "mux_own", "resp_hijack"}).Draw(t, "op")}
 		op.Encoding = rapid.SampledFrom([]string{"gzip", "deflate"}).Draw(t, "encoding")
 		op.Size = rapid.SampledFrom([]int{0, 1, 100, 5000, 70000}).Draw(t, "size")
 		op.FailAt = rapid.IntRange(0, 200).Draw(t, "failat")
@@ -136,6 +157,13 @@ func checkC13Seq(c C13SeqCase) (vs []*Violation) {
 		}
 		resp.Write(payload(size/2, 5))
 	}))
+	ws.Route(ws.GET("/h").To(func(req *restful.Request, resp *restful.Response) {
+		// a protocol upgrade: the route function takes the connection over
+		if conn, _, err := resp.Hijack(); err == nil && conn != nil {
+			conn.Write([]byte("HTTP/1.1 101 Switching Protocols\r\n\r\n"))
+			conn.Close()
+		}
+	}))
 	var readErr error
 	var readVal map[string]interface{}
 	ws.Route(ws.POST("/r").To(func(req *restful.Request, resp *restful.Response) {
@@ -181,6 +209,25 @@ func checkC13Seq(c C13SeqCase) (vs []*Violation) {
 			if err != nil || !bytes.Equal(got, want) {
 				vs = append(vs, viol("", "%s: response does not decode to its own payload (err=%v, %d vs %d bytes)", where, err, len(got), len(want)))
 			}
+		case "resp_hijack":
+			hr := harness.NewHTTPRequest(model.ReqSpec{Method: "GET", Path: "/h", Headers: []model.H{{K: "Accept-Encoding", V: op.Encoding}}}, "s")
+			w := &hijackableRecorder{ResponseRecorder: httptest.NewRecorder()}
+			var pan interface{}
+			func() {
+				defer func() { pan = recover() }()
+				if op.Dispatch {
+					ct.Dispatch(w, hr)
+				} else {
+					ct.ServeHTTP(w, hr)
+				}
+			}()
+			if pan != nil {
+				vs = append(vs, viol("", "%s: panic escaped: %v", where, pan))
+			}
+			if w.hijacked != 1 {
+				vs = append(vs, viol("", "%s: the route function's Hijack reached the connection %d times", where, w.hijacked))
+			}
+			nontrivial = true
 		case "resp_fail":
 			size, panics = op.Size, false
 			hr := harness.NewHTTPRequest(model.ReqSpec{Method: "GET", Path: "/w", Headers: []model.H{{K: "Accept-Encoding", V: op.Encoding}}}, "s")
